@@ -1594,12 +1594,9 @@ static int cfg_parse_internal(cfg_t *cfg, int level, int force_state, cfg_opt_t 
 				comment = NULL;
 			}
 
-			if (tok == '+') {
-				ignore = '=';
-				state = 13; /* Append to list, should be followed by '=' */
-			} else if (tok == '=') {
+			if (tok == '+' || tok == '=') {
 				ignore = 0;
-				state = 14; /* Assignment, regular handling */
+				state = 14; /* Assignment or append ("+=" is one token) */
 			} else if (tok == '(') {
 				ignore = ')';
 				state = 13; /* Function, ignore until end of param list */
@@ -1623,12 +1620,19 @@ static int cfg_parse_internal(cfg_t *cfg, int level, int force_state, cfg_opt_t 
 			state = 12;
 			break;
 
-		case 12: /* unknown option, recursively ignore entire sub-section */
-			rc = cfg_parse_internal(cfg, level + 1, 10, NULL);
-			if (rc != STATE_CONTINUE)
+		case 12: /* unknown option, tok is the first token of the sub-section's body */
+			if (tok == CFGT_STR) {
+				/* name of the first item, recursively ignore the items up to
+				 * and including the closing brace of the sub-section */
+				rc = cfg_parse_internal(cfg, level + 1, 10, NULL);
+				if (rc != STATE_CONTINUE)
+					goto error;
+			} else if (tok != '}') {
+				cfg_error(cfg, _("unexpected token '%s'"), cfg_yylval);
 				goto error;
-			ignore = '}';
-			state = 13;
+			}
+			ignore = 0;
+			state = force_state == 10 ? 15 : 0;
 			break;
 
 		case 13: /* unknown option, consume tokens silently until end of func/list */
@@ -1641,16 +1645,9 @@ static int cfg_parse_internal(cfg_t *cfg, int level, int force_state, cfg_opt_t 
 				break;
 			}
 
-			/* Are we done with recursive ignore of sub-section? */
-			if (force_state == 10) {
-				if (comment)
-					free(comment);
-
-				return STATE_CONTINUE;
-			}
-
+			/* In a sub-section more items or the closing brace follow */
 			ignore = 0;
-			state = 0;
+			state = force_state == 10 ? 15 : 0;
 			break;
 
 		case 14: /* unknown option, assuming value or start of list */
@@ -1672,7 +1669,17 @@ static int cfg_parse_internal(cfg_t *cfg, int level, int force_state, cfg_opt_t 
 				state = 0;
 			break;
 
-		case 15: /* unknown option, dummy read of next parameter in sub-section */
+		case 15: /* unknown option, next item or end of the ignored sub-section */
+			if (tok == '}') {
+				if (comment)
+					free(comment);
+
+				return STATE_CONTINUE;
+			}
+			if (tok != CFGT_STR) {
+				cfg_error(cfg, _("unexpected token '%s'"), cfg_yylval);
+				goto error;
+			}
 			state = 10;
 			break;
 
